@@ -427,7 +427,8 @@ int
 Hclose(int32 file_id)
 {
     filerec_t *file_rec; /* file record pointer */
-    int        ret_value = SUCCEED;
+    int        close_failed = FALSE;
+    int        ret_value    = SUCCEED;
 
     /* Clear errors and check args and all the boring stuff. */
     HEclear();
@@ -456,8 +457,10 @@ Hclose(int32 file_id)
             HGOTO_ERROR(DFE_INTERNAL, FAIL);
 
         /* otherwise, nothing should still be using this file, close it */
-        /* ignore any close error */
-        HI_CLOSE(file_rec->file);
+        /* a failing close means buffered data did not reach the file: finish the
+           tear-down, but tell the caller */
+        if (HI_CLOSE(file_rec->file) == FAIL)
+            close_failed = TRUE;
 
         if (HTPend(file_rec) == FAIL)
             HGOTO_ERROR(DFE_INTERNAL, FAIL);
@@ -468,6 +471,9 @@ Hclose(int32 file_id)
 
     if (HAremove_atom(file_id) == NULL)
         HGOTO_ERROR(DFE_INTERNAL, FAIL);
+
+    if (close_failed)
+        HGOTO_ERROR(DFE_CANTCLOSE, FAIL);
 
 done:
     return ret_value;
@@ -3568,10 +3574,13 @@ Hgetntinfo(const int32 numbertype, hdf_ntinfo_t *nt_info)
 int
 hi_close_stdio(FILE **f)
 {
-    int ret = fclose(*f);
+    /* a write that stdio had buffered and could not push out later (at a seek, flush or read)
+       leaves only the stream's error indicator behind: that data never reached the file */
+    int pending = ferror(*f);
+    int ret     = fclose(*f);
 
     /* the stream is gone whether or not fclose() reports success: never touch it again */
     *f = NULL;
-    return (ret == EOF) ? FAIL : SUCCEED;
+    return (ret == EOF || pending) ? FAIL : SUCCEED;
 }
 #endif
